@@ -341,6 +341,16 @@ def run_newton(case):
             tol = z3.Real("tolerance")
             ident = uf("eye", z3.IntSort(), ARR)(z3.Int("n"))
             err_of_M = uf("dist_inf", ARR, ARR, z3.RealSort())(Mm.v, ident)
+            if it == 0:
+                # documented initialisation (docstring): A_ridge = A + eps I, z = (p + 1) / (2 |A_ridge|_F), X0 = z^(1/p) I, M0 = z A_ridge
+                eps = z3.Real("epsilon")
+                ridge = lam(lambda i: z3.Select(z3.Array("A", z3.IntSort(), z3.RealSort()), i) + eps * z3.Select(ident, i))
+                from vlib.tensor import NORM
+                zz = (root + 1) / (2 * NORM(ridge))
+                g0 = z3.And(Mm.at(IDX) == zz * z3.Select(ridge, IDX), X.at(IDX) == real_pow(zz, as_real(1 / root).t) * z3.Select(ident, IDX))
+                out.append(prove(f"{func}/initial-scaling-uses-the-ridge-regularised-matrix{tag}", func, hyp, g0, model_vars=dict(tolerance=tol, epsilon=eps), case=case,
+                                 replay=dict(kind="newton"),
+                                 text="X0 = z^(1/p) I, M0 = z (A + eps I) with z = (p + 1) / (2 ||A + eps I||_F): the scaling that guarantees convergence is computed from the regularised matrix"))
             conv = flag == mf.NewtonConvergenceFlag.CONVERGED
             goal = z3.And(err.at(0) == err_of_M, z3.BoolVal(0 <= iters <= it), (err.at(0) <= tol) if conv else z3.And(err.at(0) > tol, z3.BoolVal(iters == it)))
             out.append(prove(f"{func}/flag-CONVERGED=>residual-of-returned-M<=tolerance{tag}", func, hyp, goal, model_vars=dict(tolerance=tol), case=case,
